@@ -714,6 +714,81 @@ class Repr(LC):
     posts = [("index_slash_length", p_result), ("view_kept", Length.p_state)]
 
 
+class AKnownLength(LC):
+    """AsyncLoopContext._known_length / __len__ / __repr__ cannot await.  They give the loop's length N when it can be told
+    without awaiting (already computed, or the iterable has a size that is the number of its items); otherwise the length is
+    *unavailable* (None / TypeError / '?').  They never give another number: an iterator's own len() may count what is left."""
+    method, owner = "_known_length", "AsyncLoopContext"
+
+    def knowable(self):
+        L = self.L
+        return z3.BoolVal(True) if self.cached else (z3.BoolVal(False) if L.is_iterator else L.sized.t)
+
+    def unavailable(self, out):
+        return out.returned and out.value is None
+
+    def available(self, out):
+        if out.raised or kind_of(out.value) != "int":
+            return False
+        return to_term(out.value, "int") == self.L.N
+
+    def p_result(self, pre, out):
+        if self.unavailable(out):
+            return z3.Not(self.knowable())
+        return self.available(out)
+
+    posts = [("length_or_unavailable", p_result), ("view_kept", Length.p_state)]
+
+
+class ALen(AKnownLength):
+    method = "__len__"
+
+    def unavailable(self, out):
+        return out.raised and out.value.cls is TypeError
+
+
+class ARepr(AKnownLength):
+    method = "__repr__"
+
+    def _text(self, n):
+        return z3.Concat(z3.StringVal(f"<{self.cls_name} "), M.py_str_int(self.L.i0 + 1), z3.StringVal("/"), n, z3.StringVal(">"))
+
+    def p_result(self, pre, out):
+        if out.raised or kind_of(out.value) != "str":
+            return False
+        v = to_term(out.value, "str")
+        return z3.Or(v == self._text(M.py_str_int(self.L.N)), z3.And(z3.Not(self.knowable()), v == self._text(z3.StringVal("?"))))
+
+    posts = [("index_slash_length_or_unavailable", p_result), ("view_kept", Length.p_state)]
+
+
+class ABool(LC):
+    """{% if loop %}: the loop object is true (it only exists inside the loop body), whatever the iterable"""
+    method, owner = "__bool__", "AsyncLoopContext"
+
+    def p_result(self, pre, out):
+        return out.returned and out.value is True
+
+    posts = [("true", p_result), ("pure", LC.p_pure)]
+
+
+def _int_consts(formulas, prefix):
+    """the integer constants named <prefix>... that occur in the formulas"""
+    seen, out, todo = set(), [], list(formulas)
+    while todo:
+        f = todo.pop()
+        if not z3.is_expr(f) or f.get_id() in seen:
+            continue
+        seen.add(f.get_id())
+        if z3.is_const(f) and f.decl().kind() == z3.Z3_OP_UNINTERPRETED and z3.is_int(f) and f.decl().name().startswith(prefix):
+            out.append(f)
+        if z3.is_quantifier(f):
+            todo.append(f.body())
+        else:
+            todo.extend(f.children())
+    return out
+
+
 class Cycle(LC):
     """cycle(*args) = args[index0 mod len(args)]  (mod: the r with index0 = len*q + r, 0 <= r < len)"""
     method = "cycle"
@@ -728,9 +803,18 @@ class Cycle(LC):
         if out.raised:
             return AND(out.value.cls is TypeError, a.n == 0)
         t = obj_term(out.value)
+        # for ALL q, r (free constants of the goal) with index0 = len*q + r and 0 <= r < len the result is args[r].  Uniqueness of
+        # Euclidean division is non-linear; the solver is given valid instances of  n*(a-b) = n*a - n*b  and  n>0 & d>=1 => n*d>=n
+        # for the quotients occurring on the path (arithmetic facts, true for all integers: they do not strengthen the hypothesis)
         q, r = z3.Int(fresh_name("q")), z3.Int(fresh_name("r"))
-        return AND(t is not None, a.n > 0,
-                   z3.ForAll([q, r], z3.Implies(z3.And(L.i0 == a.n * q + r, 0 <= r, r < a.n), t == z3.Select(a.arr, r))))
+        n = a.n
+        hints = []
+        for qp in _int_consts(out.st.pc, "q!"):
+            d = qp - q
+            hints += [n * d == n * qp - n * q, z3.Implies(z3.And(n > 0, d >= 1), n * d >= n), z3.Implies(z3.And(n > 0, d <= -1), n * d <= -n),
+                      z3.Implies(d == 0, n * d == 0)]
+        goal = z3.Implies(z3.And(L.i0 == n * q + r, 0 <= r, r < n), t == z3.Select(a.arr, r)) if t is not None else False
+        return AND(t is not None, n > 0, z3.Implies(z3.And(*hints), goal) if hints else goal)
 
     def extra_witness(self, model, w):
         nm = names_of(model)
@@ -1155,6 +1239,9 @@ def check_state(w):
     more = i0 + 1 < N
     exp_i0 = i0
     exp_last = ctx._last_changed_value
+    # the length can be told without awaiting: already computed, or the iterable has a size that is the number of its items
+    knowable = bool(w.get("cached")) or (sized and not w.get("is_iterator"))
+    also = []  # further acceptable results
     if method in ("__next__", "__anext__"):
         want = ("ok", (items[i0 + 1], "self")) if more else ("raise", "StopAsyncIteration" if asynchronous else "StopIteration")
         exp_i0 = i0 + 1 if more else i0
@@ -1171,9 +1258,21 @@ def check_state(w):
         run = lambda: _norm(_drive(getattr(ctx, method)))  # noqa: E731
     elif method == "__len__":
         want = ("ok", N)
-        run = lambda: _drive(ctx.__len__())  # noqa: E731
+        if asynchronous and not knowable:
+            also = [("raise", "TypeError")]  # len() cannot await: unavailable is fine, a wrong count is not
+        run = lambda: ctx.__len__() if asynchronous else _drive(ctx.__len__())  # noqa: E731
+    elif method == "_known_length":
+        want = ("ok", N)
+        if not knowable:
+            also = [("ok", None)]
+        run = lambda: ctx._known_length()  # noqa: E731
+    elif method == "__bool__":
+        want = ("ok", True)
+        run = lambda: bool(ctx)  # noqa: E731
     elif method == "__repr__":
         want = ("ok", f"<{cls.__name__} {i0 + 1}/{N}>")
+        if asynchronous and not knowable:
+            also = [("ok", f"<{cls.__name__} {i0 + 1}/?>")]
         run = lambda: repr(ctx)  # noqa: E731
     elif method in ("__iter__", "__aiter__"):
         want = ("ok", "self")
@@ -1214,7 +1313,7 @@ def check_state(w):
     except Exception as ex:
         st_got = ("state unreadable", type(ex).__name__, str(ex))
     st_want = (exp_i0, items[exp_i0 + 1:], items[exp_i0] if exp_i0 >= 0 else None, items[exp_i0 - 1] if exp_i0 >= 1 else None, True, True, exp_last)
-    bad = got != want or st_got != st_want
+    bad = (got != want and got not in also) or st_got != st_want
     desc = (f"{cls.__name__}.{method} at index0={i0} of {N} items (peeked={peeked}, length cached={bool(w.get('cached'))}, sized={sized}, "
             f"iterator={kind}" + (f", the iterable is its own iterator and len() counts {'the items that are left' if w.get('len_remaining') else 'all items'}"
                                   if w.get("is_iterator") and sized else ", the iterable is its own iterator" if w.get("is_iterator") else "") +
@@ -1333,6 +1432,9 @@ class Group(Task):
         taken = int(w.get("i0", -1)) + 1 + int(bool(w.get("peeked")))
         if (w.get("method") == "length" and w.get("is_iterator") and w.get("sized") and w.get("len_remaining") and not w.get("cached") and taken > 0):
             return "sized_iterator_len_counts_items_left"
+        if (w.get("cls") == "AsyncLoopContext" and w.get("method") in ("_known_length", "__len__", "__repr__") and w.get("is_iterator") and w.get("sized")
+                and w.get("len_remaining") and not w.get("cached") and taken > 0):
+            return "async_known_length_trusts_len_of_a_sized_iterator"
         return ",".join(f"{k}={w[k]}" for k in sorted(w) if k not in ("N", "i0", "depth0"))[:200]
 
 
@@ -1350,6 +1452,10 @@ TASKS = [
     Group("C07.async.length", both(ALength) + [ALength("AsyncLoopContext", cached=True)]),
     # the iterable is its own iterator, with or without a size; a size may count all items or the items that are left
     Group("C07.length.sized_iterator", [Length(sized_iterator=True)] + both(ALength, sized_iterator=True)),
+    # what the async loop object gives without awaiting: len(loop) / loop|length, {{ loop }}, {% if loop %}
+    Group("C07.async.known_length", [k("AsyncLoopContext", it=it_, **kw) for k in (AKnownLength, ALen, ARepr) for it_ in ("native", "wrapped")
+                                     for kw in ({}, {"cached": True}, {"sized_iterator": True})
+                                     if not (kw.get("sized_iterator") and it_ == "wrapped" and k is not AKnownLength)] + [ABool("AsyncLoopContext")]),
     Group("C07.revindex", [RevIndex(), RevIndex(cached=True), RevIndex0(), RevIndex0(cached=True)]),
     Group("C07.async.revindex", both(ARevIndex) + both(ARevIndex0)),
     Group("C07.attrs", [Index(), Depth(), First(), PrevItem(), Iter(), AIter(), Index("AsyncLoopContext"), First("AsyncLoopContext"),
